@@ -4,6 +4,13 @@
 //   kind 0 flag(store_true) 1 flag(store_false) 2 int 3 string 4 vector<int> 5 ValueMap store<int> 6 custom notifier
 //        7 ValueMap flag(store_true) 8 ValueMap flag(store_false)  (mapped_value.h factory flag(ValueMap&, FlagAction))
 //        9 ValueMap store<std::vector<int> >
+//        TYPED NOTIFIERS (typed_value.h notify<T>(obj, fn, parser) / flag(obj, fn, action)): the option's parser fills a freshly created
+//        object, the notification function gets it, copies it into its LOG, and its return value only says who owns the object:
+//        false = "I copied what I need, delete it" (declined), true = "I keep it" (the value then parses in place into that object):
+//        10 int / 11 std::string / 12 flag(store_true) / 13 std::vector<int> : the function always DECLINES
+//        14 int / 15 std::string / 16 flag(store_true) / 17 std::vector<int> : the function always KEEPS
+//        18 int, keeps an even value and declines an odd one        19 flag(store_false), declines
+//        (any other kind: the custom, UNTYPED notifier 6, whose return value means valid / invalid)
 //   impl?/dflt? : 0 | 1 len bytes
 //   op  1 hasExcl [nExcl ids..] nPairs { optId len bytes }*  |  2 (assignDefaults)  |  3 (fresh ParsedOptions)
 //       4 k ids..   parsed.add("o<id>") for each id - any name: an option of the context or a FOREIGN name (id >= nopts); no observation
@@ -15,6 +22,10 @@
 //         is used; what SURVIVES is what the application keeps for the results: the bound variables, the ValueMap, the notifier's log.
 //         ("an application re-reads its configuration: new option set for every run, one ValueMap for the results"); no observation
 // Observation per op 1/2/5: err(0 | 1+type key len bytes) fault(0) parsed.size { state count varLen var.. }*
+//   var of a typed notifier (kinds 10..19):  made libFreed ctxFreed held clen content..  { len elems.. }*  where made = objects the library
+//   created for this option, libFreed = objects the library deleted itself (declined ones, and those of refused strings), ctxFreed = objects
+//   the context deleted when it was handed a newer one, held = the context owns an object (content), then the log: EVERY delivered value in
+//   order.  (made / libFreed are 0 for the flag kinds: a plain bool cannot be counted.)
 #include "common.h"
 #include <memory>
 #include <deque>
@@ -32,6 +43,73 @@ static bool customNotify(Log* l, const std::string& name, const std::string& val
 	l->seen[name].push_back(value);
 	return true;
 }
+// ---- typed notifiers: tracked objects, one type per (element type, option slot) so that constructions / destructions can be attributed
+template <class T, int S> struct Tr {
+	Tr() : v() { ++made; }
+	Tr(const Tr& o) : v(o.v) { ++made; }
+	~Tr() { ++dead; }
+	T v;
+	static int made, dead;
+};
+template <class T, int S> int Tr<T, S>::made = 0;
+template <class T, int S> int Tr<T, S>::dead = 0;
+static void encVal(int x, std::vector<ll>& out) { out.push_back(x); }
+static void encVal(bool x, std::vector<ll>& out) { out.push_back(x ? 1 : 0); }
+static void encVal(const std::string& x, std::vector<ll>& out) { for (size_t i = 0; i != x.size(); ++i) out.push_back((unsigned char)x[i]); }
+static void encVal(const std::vector<int>& x, std::vector<ll>& out) { for (size_t i = 0; i != x.size(); ++i) out.push_back(x[i]); }
+// the notified context: it COPIES every delivered value into its log; the kind of the option decides whether it also takes the object
+struct TCtx {
+	struct Ent {
+		Ent() : kind(0), held(0), del(0), enc(0), cfreed(0) {}
+		int kind; std::vector<ll> log; const void* held; void (*del)(const void*); void (*enc)(const void*, std::vector<ll>&); int cfreed;
+	};
+	std::map<std::string, Ent> ent;
+	bool onValue(const std::string& name, const void* p, const std::vector<ll>& val, void (*del)(const void*), void (*enc)(const void*, std::vector<ll>&)) {
+		Ent& e = ent[name];
+		e.log.push_back((ll)val.size()); e.log.insert(e.log.end(), val.begin(), val.end());
+		bool keep = (e.kind >= 14 && e.kind <= 17) || (e.kind == 18 && !val.empty() && val[0] % 2 == 0);
+		if (keep && e.held != p) {                       // a NEW object is handed over: the one held so far is the context's to delete
+			if (e.held) { e.del(e.held); ++e.cfreed; }
+			e.held = p; e.del = del; e.enc = enc;
+		}
+		return keep;
+	}
+	~TCtx() { for (std::map<std::string, Ent>::iterator it = ent.begin(); it != ent.end(); ++it) if (it->second.held) it->second.del(it->second.held); }
+};
+template <class T, int S> static void delTr(const void* p) { delete static_cast<const Tr<T, S>*>(p); }
+template <class T, int S> static void encTr(const void* p, std::vector<ll>& out) { encVal(static_cast<const Tr<T, S>*>(p)->v, out); }
+template <class T, int S> static bool notifyTr(TCtx* c, const std::string& name, const Tr<T, S>* p) {
+	std::vector<ll> val; encVal(p->v, val);
+	return c->onValue(name, p, val, &delTr<T, S>, &encTr<T, S>);
+}
+template <class T, int S> static bool parseTr(const std::string& s, Tr<T, S>& out) { return Potassco::string_cast<T>(s, out.v); }
+static void delBool(const void* p) { delete static_cast<const bool*>(p); }
+static void encBool(const void* p, std::vector<ll>& out) { encVal(*static_cast<const bool*>(p), out); }
+static bool notifyFlag(TCtx* c, const std::string& name, const bool* p) {
+	std::vector<ll> val; encVal(*p, val);
+	return c->onValue(name, p, val, &delBool, &encBool);
+}
+struct SlotOps { Po::Value* (*mk)(TCtx*); int* made; int* dead; };
+template <class T, int S> struct Ops { static Po::Value* mk(TCtx* c) { return Po::notify<Tr<T, S> >(c, &notifyTr<T, S>, &parseTr<T, S>); } };
+#define SLOT(T, S) { &Ops<T, S>::mk, &Tr<T, S>::made, &Tr<T, S>::dead }
+#define SLOTS(T) { SLOT(T, 0), SLOT(T, 1), SLOT(T, 2), SLOT(T, 3), SLOT(T, 4), SLOT(T, 5), SLOT(T, 6), SLOT(T, 7) }
+static const size_t NSLOTS = 8;
+static const SlotOps INT_OPS[NSLOTS] = SLOTS(int);
+static const SlotOps STR_OPS[NSLOTS] = SLOTS(std::string);
+static const SlotOps VEC_OPS[NSLOTS] = SLOTS(std::vector<int>);
+static const SlotOps* slotOps(int kind, size_t k) {
+	if (k >= NSLOTS) return 0;
+	switch (kind) {
+		case 10: case 14: case 18: return &INT_OPS[k];
+		case 11: case 15:          return &STR_OPS[k];
+		case 13: case 17:          return &VEC_OPS[k];
+		default:                   return 0;
+	}
+}
+static void resetCounters() {
+	for (size_t k = 0; k != NSLOTS; ++k) { *INT_OPS[k].made = *INT_OPS[k].dead = *STR_OPS[k].made = *STR_OPS[k].dead = *VEC_OPS[k].made = *VEC_OPS[k].dead = 0; }
+}
+
 struct Target {
 	int kind; bool comp; bool b; int i; std::string s; std::vector<int> v;
 	std::string impl, dflt; bool hasImpl, hasDflt;
@@ -43,7 +121,7 @@ struct OptSet {
 	std::unique_ptr<Po::OptionGroup>   g;
 	std::unique_ptr<Po::OptionContext> ctx;
 	// (re)builds group, context and Value objects from the descriptors in T; variables / map / log are the caller's and survive
-	void build(std::deque<Target>& T, Po::ValueMap& vm, Log& log) {
+	void build(std::deque<Target>& T, Po::ValueMap& vm, Log& log, TCtx& tc) {
 		ctx.reset(); g.reset();             // the old option set dies first (its values do not own mapped objects)
 		g.reset(new Po::OptionGroup());
 		ctx.reset(new Po::OptionContext("ctx"));
@@ -61,6 +139,14 @@ struct OptSet {
 				case 7: v = Po::flag(vm); break;
 				case 8: v = Po::flag(vm, Po::store_false); break;
 				case 9: v = Po::store<std::vector<int> >(vm); break;
+				case 10: case 11: case 13: case 14: case 15: case 17: case 18: {
+					const SlotOps* so = slotOps(t.kind, k);
+					if (!so) throw std::runtime_error("no slot");
+					tc.ent[optName((ll)k)].kind = t.kind;
+					v = so->mk(&tc);
+					break; }
+				case 12: case 16: tc.ent[optName((ll)k)].kind = t.kind; v = Po::flag(&tc, &notifyFlag); break;
+				case 19:          tc.ent[optName((ll)k)].kind = t.kind; v = Po::flag(&tc, &notifyFlag, Po::store_false); break;
 				default: v = Po::notify(&log, &customNotify); break;
 			}
 			if (t.comp)      v->composing();
@@ -87,7 +173,8 @@ int main() {
 	while (readCase(c)) {
 		size_t n = (size_t)c.next();
 		std::deque<Target> T(n);
-		Po::ValueMap vm; Log log;
+		resetCounters();
+		Po::ValueMap vm; Log log; TCtx tc;     // tc outlives the option sets (it is what the application keeps), and dies after them
 		OptSet os;
 		try {
 			for (size_t k = 0; k != n; ++k) {
@@ -97,7 +184,7 @@ int main() {
 				if (c.next() != 0) { t.hasImpl = true; t.impl = c.bytes((size_t)c.next()); }
 				if (c.next() != 0) { t.hasDflt = true; t.dflt = c.bytes((size_t)c.next()); }
 			}
-			os.build(T, vm, log);
+			os.build(T, vm, log, tc);
 		}
 		catch (const std::exception&) { o.add(-998); o.flush(); continue; }
 		// the second context: FOREIGN plain string options (names continue the numbering of the first context)
@@ -148,7 +235,7 @@ int main() {
 			}
 			else if (op == 6) {
 				bool ok = true;
-				try { os.build(T, vm, log); }
+				try { os.build(T, vm, log, tc); }
 				catch (const std::exception&) { ok = false; }
 				if (!ok) { o.add(-998); break; }
 				parsed.reset(new Po::ParsedOptions());
@@ -188,6 +275,19 @@ int main() {
 						}
 						else o.add(0);
 						break;
+					case 10: case 11: case 12: case 13: case 14: case 15: case 16: case 17: case 18: case 19: {
+						TCtx::Ent& e = tc.ent[opt.name()];
+						const SlotOps* so = slotOps(t.kind, k);
+						std::vector<ll> out;
+						out.push_back(so ? *so->made : 0);
+						out.push_back(so ? *so->dead - e.cfreed : 0);
+						out.push_back(e.cfreed);
+						out.push_back(e.held ? 1 : 0);
+						std::vector<ll> content; if (e.held) e.enc(e.held, content);
+						out.push_back((ll)content.size()); out.insert(out.end(), content.begin(), content.end());
+						out.insert(out.end(), e.log.begin(), e.log.end());
+						o.add((ll)out.size()); for (size_t j = 0; j != out.size(); ++j) o.add(out[j]);
+						break; }
 					default: {
 						const std::vector<std::string>& l = log.seen[opt.name()];
 						size_t tot = 0; for (size_t j = 0; j != l.size(); ++j) tot += 1 + l[j].size();
